@@ -2,6 +2,7 @@ import Capella.Lemmas.Path
 import Capella.Lemmas.Quote
 import Capella.Lemmas.TmpName
 import Capella.Lemmas.Http
+import Capella.Lemmas.Symlink
 
 /-!
 # C14 — file handlers never reach outside their root
@@ -112,6 +113,41 @@ theorem quote_distrib (a b : List UInt8) :
     quote true (a ++ 47 :: b) = quote true a ++ '/' :: quote true b := by
   simp [quote, quoteByte, isSafe, alwaysSafe]
 
+/-! ## Symbolic links below the root
+
+The statement quantifies over file *names*; what a name physically denotes also depends on the symbolic
+links that whoever owns the directory (or the git repository) put below the root.  The handlers do not
+resolve links themselves (the local handler's `is_file` / `is_dir` call `resolve()` only to follow them).
+What can be said exactly: -/
+
+/-- **Physically below the root when the links are safe**: if every symbolic link located below the root
+has a relative target without `..`, then for every handler, subdir and file name the physical location
+that `open(name)` reaches — after following links, to any depth, through links to links — is below the
+root (a link loop resolves to nothing at all). -/
+theorem physical_confined (ls : Links) (root : List Str) (hs : SafeLinks ls root) (fuel : Nat)
+    (h : Handler) (subdir name : Str) (r : List Str)
+    (hp : physical ls fuel root h subdir name = some r) : root <+: r := by
+  refine realpath_confined ls root hs fuel root _ (List.prefix_refl _) ?_ r hp
+  intro hm
+  exact ((target_under_subdir h subdir name).2 _ hm).2.2.1 rfl
+
+/-- without links the physical location is the lexical one: `<root>/<normalised subdir>/<normalised name>` -/
+theorem physical_no_links (root : List Str) (h : Handler) (subdir name : Str) (fuel : Nat)
+    (hf : (target h subdir name).length ≤ fuel) :
+    physical [] fuel root h subdir name = some (root ++ target h subdir name) :=
+  realpath_no_links _ (target_under_subdir h subdir name).2 fuel root hf
+
+/-- **A link with an absolute target, or with `..`, does lead outside** — the handlers do not prevent
+that: with `<root>/l -> /etc` the name `l/passwd` is lexically below the root and physically `/etc/passwd`;
+with `<root>/sub/up -> ../..` the name `sub/up/x` is physically `<root>/../x`. -/
+theorem unsafe_link_escapes :
+    let root := [['r']]
+    physical [([['r'], ['l']], "/etc".toList)] 9 root .localDir [] "l/passwd".toList
+      = some ["etc".toList, "passwd".toList] ∧
+    physical [([['r'], "sub".toList, "up".toList], "../..".toList)] 9 root .localDir [] "sub/up/x".toList
+      = some [['x']] := by
+  decide
+
 /-! ## HTTP: the URL template language (`%s %q %d %n %e %%`) -/
 
 section http
@@ -179,5 +215,22 @@ example : Capella.Http.request "https://h/%d/-/%n.%e".toList [] "d.x/a.tar.gz".t
 example : Capella.Http.request "https://h/%c3%a9/%s".toList [] "a".toList = .keyError 'c' := by decide
 example : Capella.Http.litPrefix (Capella.Http.scan (Capella.Http.initTemplate "https://h/base".toList))
     = "https://h/base/".toList := by decide
+
+/-- safe links: a link to a sibling directory, a link to a link, and a loop (which resolves to nothing) -/
+example :
+    let ls : Links := [([['r'], ['a']], "b/c".toList), ([['r'], ['b'], ['c']], "./d".toList), ([['r'], ['x']], "y".toList), ([['r'], ['y']], "x".toList)]
+    SafeLinks ls [['r']] ∧
+    physical ls 20 [['r']] .localDir [] "a/f".toList = some [['r'], ['b'], ['d'], ['f']] ∧
+    physical ls 20 [['r']] .localDir [] "x".toList = none := by
+  refine ⟨?_, by decide, by decide⟩
+  intro l t hl _
+  simp only [linkAt] at hl
+  have : t ∈ ["b/c".toList, "./d".toList, "y".toList, "x".toList] := by
+    obtain ⟨e, he, rfl⟩ := Option.map_eq_some_iff.mp hl
+    have := List.mem_of_find?_eq_some he
+    simp only [List.mem_cons, List.not_mem_nil, or_false] at this
+    rcases this with rfl | rfl | rfl | rfl <;> simp
+  simp only [List.mem_cons, List.not_mem_nil, or_false] at this
+  rcases this with rfl | rfl | rfl | rfl <;> exact ⟨by decide, by decide⟩
 
 end Capella.Props.C14
